@@ -186,66 +186,104 @@ def typevars_at(ranges: list, line: int) -> frozenset:
 	return tv
 
 
-def observe(source: str, entries) -> tuple[dict[tuple, list], int]:
-	tree = ast.parse(source)
-	ins = Instrument()
-	new_body = []
-	for st in tree.body:
-		r = ins.visit(st)
-		new_body.extend(r if isinstance(r, list) else [r])
-	tree.body = new_body
-	ast.fix_missing_locations(tree)
-	values: dict[int, list] = {}
+def observe(source: str, entries, lib: dict | None = None) -> tuple[dict[str, dict[tuple, list]], int]:
+	"""Run the instrumented program (and, when given, its instrumented library module, importable under lib['name']);
+	returns {module name: {span: [values]}}, number of completed entry calls."""
+	import sys
+	import types
+	values: dict[tuple, list] = {}
 
-	def rec(k, v):
-		lst = values.setdefault(k, [])
-		if len(lst) < 12:
-			lst.append(pytype.snap(v))
-		return v
-	ns = {'__vf_rec__': rec, '__name__': '__vf_prog__'}
-	exec(compile(tree, '<c03>', 'exec'), ns)  # noqa: S102
+	def instrument(text: str, tag: str):
+		tree = ast.parse(text)
+		ins = Instrument()
+		new_body = []
+		for st in tree.body:
+			r = ins.visit(st)
+			new_body.extend(r if isinstance(r, list) else [r])
+		tree.body = new_body
+		ast.fix_missing_locations(tree)
+
+		def rec(k, v):
+			lst = values.setdefault((tag, k), [])
+			if len(lst) < 12:
+				lst.append(pytype.snap(v))
+			return v
+		return tree, ins, rec
+	inss = {}
 	calls = 0
-	for name, vectors in entries:
-		fn = ns.get(name)
-		if fn is None:
-			continue
-		for vec in vectors:
-			try:
-				fn(*vec)
-				calls += 1
-			except Exception:  # noqa
-				pass
-	by_span: dict[tuple, list] = {}
-	for k, vals in values.items():
-		by_span.setdefault(ins.spans[k], []).extend(vals)
-	return by_span, calls
+	try:
+		if lib:
+			tree, ins, rec = instrument(lib['source'], lib['name'])
+			inss[lib['name']] = ins
+			mod = types.ModuleType(lib['name'])
+			mod.__dict__['__vf_rec__'] = rec
+			sys.modules[lib['name']] = mod
+			exec(compile(tree, f'<c03:{lib["name"]}>', 'exec'), mod.__dict__)  # noqa: S102
+		tree, ins, rec = instrument(source, '__main__')
+		inss['__main__'] = ins
+		ns = {'__vf_rec__': rec, '__name__': '__vf_prog__'}
+		exec(compile(tree, '<c03>', 'exec'), ns)  # noqa: S102
+		for name, vectors in entries:
+			fn = ns.get(name)
+			if fn is None:
+				continue
+			for vec in vectors:
+				try:
+					fn(*vec)
+					calls += 1
+				except Exception:  # noqa
+					pass
+	finally:
+		if lib:
+			sys.modules.pop(lib['name'], None)
+	by_mod: dict[str, dict[tuple, list]] = {m: {} for m in inss}
+	for (tag, k), vals in values.items():
+		by_mod[tag].setdefault(inss[tag].spans[k], []).extend(vals)
+	return by_mod, calls
 
 
 def check_program(acc: Acc, case: dict) -> None:
 	from rogw.tranp.errors import Errors
-	from rogw.tranp.semantics.reflection.helper.naming import ClassShorthandNaming
-	import rogw.tranp.syntax.node.definition as defs
 	source = case['source']
 	entries = case['entries']
+	lib = case.get('lib')
 	try:
-		by_span, calls = observe(source, entries)
+		by_mod, calls = observe(source, entries, lib)
 	except Exception as e:  # noqa
 		acc.case(None)
 		acc.inconc('CPython cannot run the instrumented program (harness/generator): ' + type(e).__name__, str(e)[:200])
 		return
 	s = session()
 	try:
-		module = s.reload('__main__', source)
+		s.unload('__main__')
+		mods = []
+		if lib:
+			mods.append((lib['name'], lib['source'], s.reload(lib['name'], lib['source'])))
+		mods.append(('__main__', source, s.reload('__main__', source)))
 	except Errors.Error as e:
 		acc.case(sig_of(source), None, True)
 		acc.violation('program-rejected', f'{type(e).__name__}: {str(e)[:300]}', case)
 		return
+	nontrivial = 'class ' in source or 'list[' in source
+	compared = 0
+	for name, text, module in mods:
+		n = compare_module(acc, case, s, module, text, by_mod.get(name, {}), name)
+		if n < 0:
+			break
+		compared += n
+	acc.case(sig_of((source, lib and lib['source'])), {'compared_nodes': compared, 'calls': calls, 'modules': [m[0] for m in mods], 'source_head': source[-400:]}, nontrivial)
+
+
+def compare_module(acc: Acc, case: dict, s, module, source: str, by_span: dict, modname: str) -> int:
+	"""-> number of compared nodes, -1 after an inference error (the rest of the program is not looked at)"""
+	from rogw.tranp.errors import Errors
+	from rogw.tranp.semantics.reflection.helper.naming import ClassShorthandNaming
+	import rogw.tranp.syntax.node.definition as defs
 	kinds = (defs.Var, defs.Relay, defs.FuncCall, defs.Indexer, defs.BinaryOperator, defs.Factor, defs.NotCompare, defs.TernaryOperator, defs.Integer, defs.Float, defs.String,
 		defs.Truthy, defs.Falsy, defs.List, defs.Dict, defs.Tuple, defs.ListComp, defs.DictComp, defs.Declable)
 	compared = 0
 	found = 0
 	ranges = generic_ranges(ast.parse(source))
-	nontrivial = 'class ' in source or 'list[' in source
 	for n in module.entrypoint.procedural():
 		if not isinstance(n, kinds) or isinstance(n, (defs.TypesName, defs.ImportAsName, defs.ImportName)):
 			continue
@@ -258,9 +296,8 @@ def check_program(acc: Acc, case: dict) -> None:
 		try:
 			text = ClassShorthandNaming.domain_name_for_debug(s.reflections.type_of(n))
 		except Errors.Error as e:
-			acc.violation('inference-raises', f'type_of({type(n).__name__} {n.tokens[:40]!r} at line {span[0]}) raised {type(e).__name__} although the expression ran and yielded {pytype.describe(vals[0])}\n{source_line(source, span)}', dict(case, span=span))
-			acc.case(sig_of(source), None, nontrivial)
-			return
+			acc.violation('inference-raises', f'type_of({type(n).__name__} {n.tokens[:40]!r} at {modname} line {span[0]}) raised {type(e).__name__} although the expression ran and yielded {pytype.describe(vals[0])}\n{source_line(source, span)}', dict(case, span=span, module=modname))
+			return -1
 		try:
 			static = pytype.parse_static(text)
 		except Exception:  # noqa
@@ -268,16 +305,17 @@ def check_program(acc: Acc, case: dict) -> None:
 			continue
 		compared += 1
 		acc.see('comparisons', type(n).__name__)
-		acc.see('static_type', text.split('<')[0].split('(')[0] if not text.startswith(tuple('abcdefghijklmnopqrstuvwxyz_')) or text in ('int', 'str', 'float', 'bool') or text.startswith(('list', 'dict', 'tuple', 'type')) else 'function')
+		acc.see('static_type', static[0] if static[0] != 'fn' else 'function')
+		acc.see('module_kind', 'library' if modname != '__main__' else 'main')
 		for v in vals:
 			reason = pytype.matches(static, v, typevars_at(ranges, span[0]))
 			if reason is not None:
-				acc.violation('type-differs', f'{type(n).__name__} {n.tokens[:40]!r} at line {span[0]}: inferred {text!r}, run-time value {pytype.describe(v)}: {reason}\n{source_line(source, span)}', dict(case, span=span, meta=node_meta(n, text, v, ranges, span[0], source)))
+				acc.violation('type-differs', f'{type(n).__name__} {n.tokens[:40]!r} at {modname} line {span[0]}: inferred {text!r}, run-time value {pytype.describe(v)}: {reason}\n{source_line(source, span)}', dict(case, span=span, module=modname, meta=node_meta(n, text, v, ranges, span[0], source)))
 				found += 1
 				break
 		if found >= 6:
 			break
-	acc.case(sig_of(source), {'compared_nodes': compared, 'calls': calls, 'source_head': source[-400:]}, nontrivial)
+	return compared
 
 
 def node_meta(n, text: str, v, ranges: list, line: int, source: str) -> dict:
@@ -321,6 +359,21 @@ def classify(v: dict) -> str | None:
 	return None
 
 
+def split_library(source: str, name: str) -> tuple[str, str, str] | None:
+	"""(library module name, main text, library text): the declarations (enums, generic class, generic functions, classes) move to a
+	library module and the functions import them - types then reach the main module through the import / expand_modules path."""
+	import re
+	lines = source.split('\n')
+	cut = next((i for i, l in enumerate(lines) if re.match(r'def fn\d+\(', l)), None)
+	if cut is None:
+		return None
+	head = [l for l in lines[:cut] if l.startswith(('from ', 'import '))]
+	lib_text = '\n'.join(lines[:cut]).rstrip('\n') + '\n'
+	names = re.findall(r'^(?:class|def) (\w+)', lib_text, re.M)
+	main = head + [f'from {name} import ' + ', '.join(names), '', ''] + lines[cut:]
+	return name, '\n'.join(main), lib_text
+
+
 WITNESSES = [
 	# open finding lambda-parameter-keeps-callee-type-parameter (the random workload does not pass lambdas to generic functions)
 	('from collections.abc import Callable\n\n\ndef apply[A6, B6](f: Callable[[A6], B6], a: A6) -> B6:\n\treturn f(a)\n\n\ndef entry(n: int) -> int:\n\tr = apply(lambda q: [q], n)\n\treturn n\n', [['entry', [[1]]]]),
@@ -358,6 +411,16 @@ def shard(ctx: Ctx, acc: Acc) -> None:
 		else:
 			source, entries = TyGen(r, size=r.choice([2, 4, 6, 8])).program()
 			acc.see('generator', 'tycomp')
+			if i % 3 == 2:
+				lib = split_library(source, f'vflib{i % 7}')
+				if lib:
+					acc.see('generator', 'tycomp-two-modules')
+					try:
+						check_program(acc, {'source': lib[1], 'entries': entries, 'lib': {'name': lib[0], 'source': lib[2]}})
+					except Exception as e:  # noqa
+						acc.extra.setdefault('harness_errors', []).append(fmt_exc(e) + source[-400:])
+						return
+					continue
 		try:
 			check_program(acc, {'source': source, 'entries': entries})
 		except Exception as e:  # noqa
